@@ -88,18 +88,15 @@ func ruleROEffectFree(c *Ctx) {
 		c.und("anchors", 0, "luaTile38AtomicRO or commandInScript not found")
 		return
 	}
-	readList := map[string]bool{}
-	for _, cl := range ss.Clauses {
-		if cl.IsDefault {
-			continue
+	// a command reaches the dispatch unless the arm of the class switch that handles it (explicit or default,
+	// or none at all) returns unconditionally
+	reaches := func(cmd string) bool {
+		cl := ss.clauseFor(cmd)
+		if cl == nil {
+			return true // no arm and no default: falls through to the dispatch
 		}
 		lc := c.interpretLockArm(fn, ss, cl)
-		if lc.Write || contains(lc.Returns, "errReadOnly") {
-			continue
-		}
-		for _, s := range cl.Strings {
-			readList[s] = true
-		}
+		return len(lc.Returns) == 0
 	}
 	allGuarded := map[string]bool{"Collection": true}
 	for _, n := range serverGuardedNames {
@@ -113,7 +110,8 @@ func ruleROEffectFree(c *Ctx) {
 			}
 			hs, _ := c.armCallees(cis, cl.Clause.Body)
 			for _, s := range cl.Strings {
-				if !readList[s] {
+				if !reaches(s) {
+					c.ok("refused/"+s, cl.Clause.Pos(), false, "refused by the read-only class switch before the dispatch")
 					continue
 				}
 				var eff []*accState
